@@ -197,7 +197,8 @@ def step(draw):
     picks = draw(st.lists(st.integers(0, 11), min_size=n, max_size=n))
     params = {}
     if kind in R.ALL:
-        params = draw(G.params_for(kind, n, [0.5, -0.25, 1.0, 0.0]))
+        # (one time in four with values beyond the fuzzy range: defaults, category and curve values of any size are admissible)
+        params = draw(G.params_for(kind, n, [0.5, -0.25, 1.0, 0.0], wild=draw(st.integers(0, 3)) == 0))
         if draw(st.integers(0, 5)) == 0:
             # parameters at the ends of the double range: whatever the command computes from them, its inputs stay as they are
             extreme = st.sampled_from([1e308, -1e308, 5e307, 1e-308, 1e20, 0.0, -0.0])
